@@ -7,6 +7,7 @@
  *
  * Calls the library documents as unsupported (they end in assert(0) or a GMP division by zero) are not made:
  * the driver prints UNDEF for them, and the model must agree that the case is undefined.
+ * Extra input token of this driver: P:a/n = algebraic-TYPED dyadic point (lp_algebraic_number_construct_from_dyadic_rational).
  * Output operands: fresh (LP_VALUE_NONE) / pre-used with the value U of another kind / aliased with an input. */
 #include "valio.h"
 #include <unistd.h>
@@ -16,6 +17,14 @@
 #define CASE_SECONDS 5
 
 static int parse_or_die(lp_value_t* v, const char* tok) {
+  if (tok[0] == 'P' && tok[1] == ':') {
+    /* P:a/n : an LP_VALUE_ALGEBRAIC value that is the dyadic point a/2^n from the start (f == NULL) */
+    lp_dyadic_rational_t d; vio_dyadic(&d, tok + 2, NULL);
+    lp_algebraic_number_t a; lp_algebraic_number_construct_from_dyadic_rational(&a, &d);
+    lp_value_construct(v, LP_VALUE_ALGEBRAIC, &a);
+    lp_algebraic_number_destruct(&a); lp_dyadic_rational_destruct(&d);
+    return 1;
+  }
   if (!vio_parse(v, tok)) { printf("BADTOKEN %s", tok); return 0; }
   return 1;
 }
@@ -113,6 +122,23 @@ int main(void) {
       if (ok) {
         vio_print(&v[0]); putchar(' '); vio_print(&v[1]); putchar(' '); vio_print(&v[2]); printf(" |");
         for (int i = 0; i < 3; ++i) for (int j = 0; j < 3; ++j) if (i != j) printf(" %d", sgn_of(lp_value_cmp(&v[i], &v[j])));
+      } else --n;
+      for (int i = 0; i < n; ++i) lp_value_destruct(&v[i]);
+    }
+    else if (is_op("cmps") && vntok == 4) {
+      /* cmps A X P : compare A with X first (this may refine A's isolating interval in place), then the SAME object
+       * A with P in both orders; the state of A after the first comparison is printed so that the model sees which
+       * interval the second comparison starts from */
+      lp_value_t v[3]; int ok = 1, n = 0;
+      for (; n < 3 && ok; ++n) ok = parse_or_die(&v[n], vtok[1 + n]);
+      if (ok) {
+        vio_print(&v[0]); putchar(' '); vio_print(&v[1]); putchar(' '); vio_print(&v[2]); printf(" |");
+        int ax = lp_value_cmp(&v[0], &v[1]);
+        int xa = lp_value_cmp(&v[1], &v[0]);
+        printf(" %d %d ", sgn_of(ax), sgn_of(xa)); vio_print(&v[0]);
+        int ap = lp_value_cmp(&v[0], &v[2]);
+        int pa = lp_value_cmp(&v[2], &v[0]);
+        printf(" %d %d", sgn_of(ap), sgn_of(pa));
       } else --n;
       for (int i = 0; i < n; ++i) lp_value_destruct(&v[i]);
     }
